@@ -180,9 +180,25 @@ def judgeLine (line : String) : String :=
 
 end GeomV.C11
 
+partial def GeomV.C11.readLines (h : IO.FS.Stream) (acc : Array String) : IO (Array String) := do
+  let line ← h.getLine
+  if line.isEmpty then return acc
+  let l := (line.trimAscii).toString
+  GeomV.C11.readLines h (if l ≠ "" then acc.push l else acc)
+
+/-- `judgeLine` is a pure function of one history line, so the lines are judged in small chunks on Lean's task pool
+(one verdict per line, printed in input order; `judge1` = the sequential loop) -/
+def GeomV.C11.judgeAll (lines : Array String) (chunk : Nat := 4) : Array (Task (Array String)) :=
+  (Array.range ((lines.size + chunk - 1) / chunk)).map fun c =>
+    Task.spawn fun _ => (lines.extract (c * chunk) ((c + 1) * chunk)).map GeomV.C11.judgeLine
+
 open GeomV GeomV.C11 in
 def main (args : List String) : IO Unit := do
   let out ← IO.getStdout
   match args with
-  | ["judge"] => forEachLine fun l => out.putStrLn (judgeLine l)
+  | ["judge"] =>
+    let lines ← readLines (← IO.getStdin) #[]
+    for t in judgeAll lines do
+      for v in t.get do out.putStrLn v
+  | ["judge1"] => forEachLine fun l => out.putStrLn (judgeLine l)
   | _ => IO.eprintln "usage: geomv_c11 judge"
